@@ -136,6 +136,62 @@ theorem no_candidate_skipped (isEv : Nat → Bool) (script : List Bool) (tasks :
         ∀ e ∈ t.pods, e.pod ∈ creditedPods older ∨ (⟨ti, e, .fail⟩ : Ev) ∈ older) :=
   kill_turns isEv script tasks ti t ht
 
+/-! ### A.8 the two readings of "including pods already evicted but still terminating"
+
+  * when-reached (the code comment in KillAndEvictPods: "count its resource as pending release so that
+    extra victims are not picked"): a still-terminating pod is credited when the scan reaches it in the
+    task's list.  This is `Met` over the trace so far, and it is the reading A.3 `stop_when_met` proves.
+  * up-front: every still-terminating pod of the task's list counts before any victim is picked, i.e. no
+    `Evict` while `MetUpFront` holds.
+
+  The code implements the FIRST reading and not the second: `upfront_reading_refuted` is a run in which a
+  running pod is evicted although a terminating pod later in the same list would cover the target.  With
+  non-negative releases the up-front reading is the stricter one (`met_imp_metUpFront`), so the code may
+  evict more than the up-front reading allows, never less.  The oracle stays on the when-reached reading
+  and tags the cases where the two differ (`note:terminating-later-in-list-would-cover`). -/
+
+/-- release of the still-terminating pods of the list that the trace has not credited yet. -/
+def pendingLater (agg : Entry → Rel) (isEv : Nat → Bool) (older : List Ev) (k : Key) : List Entry → Int
+  | [] => 0
+  | e :: es =>
+    (if isEv e.pod && !(creditedPods older).contains e.pod then getSum (agg e) k else 0)
+      + pendingLater agg isEv older k es
+
+def MetUpFront (agg : Entry → Rel) (isEv : Nat → Bool) (t : Task) (older : List Ev) : Prop :=
+  ∀ ra ∈ t.toRelease,
+    ra.2 ≤ credit agg older (t.target, ra.1) + pendingLater agg isEv older (t.target, ra.1) t.pods
+
+/-- witness: target 5; pod 0 (running, releases 5) is listed before pod 1 (terminating, releases 5). -/
+def upFrontTask : Task :=
+  { target := 0, toRelease := [(1, 5)], fn := [(1, 0)], pods := [⟨0, [5]⟩, ⟨1, [5]⟩] }
+
+theorem upfront_reading_refuted :
+    ∃ (ev : Ev) (newer older : List Ev),
+      (killAndEvict (fun p => p = 1) [] [upFrontTask]).logRev = newer ++ ev :: older ∧ ev.kind = .ok ∧
+      [upFrontTask][ev.task]? = some upFrontTask ∧
+      MetUpFront (aggOf [upFrontTask]) (fun p => p = 1) upFrontTask older ∧
+      ¬ Met (aggOf [upFrontTask]) upFrontTask older :=
+  ⟨⟨0, ⟨0, [5]⟩, .ok⟩, [], [], by decide, by decide, by decide,
+    by unfold MetUpFront; decide, by unfold Met; decide⟩
+
+theorem pendingLater_nonneg (agg : Entry → Rel) (isEv : Nat → Bool) (older : List Ev) (k : Key) (es : List Entry)
+    (h : ∀ e ∈ es, 0 ≤ getSum (agg e) k) : 0 ≤ pendingLater agg isEv older k es := by
+  induction es with
+  | nil => simp [pendingLater]
+  | cons e es ih =>
+    unfold pendingLater
+    have h1 := h e (List.mem_cons_self ..)
+    have h2 := ih (fun e' he' => h e' (List.mem_cons_of_mem _ he'))
+    split <;> omega
+
+/-- with non-negative releases the up-front reading is the stricter one. -/
+theorem met_imp_metUpFront (agg : Entry → Rel) (isEv : Nat → Bool) (t : Task) (older : List Ev)
+    (hnn : ∀ e ∈ t.pods, ∀ k, 0 ≤ getSum (agg e) k) (h : Met agg t older) : MetUpFront agg isEv t older := by
+  intro ra hra
+  have h1 := h ra hra
+  have h2 := pendingLater_nonneg agg isEv older (t.target, ra.1) t.pods (fun e he => hnn e he _)
+  omega
+
 /-! ## Part B — who may be a victim, and in which order (memoryevict / cpuevict selection) -/
 
 /-- eligibility of the priority-based policies as the property states it (plus the two
